@@ -54,6 +54,7 @@ func driveDrop(sched string) (answer string, viol [][3]string) {
 	k, latest, pending := 0, 0, false
 	take := func(final bool) (string, bool) {
 		if pending {
+			w := bounded(lossyWait)
 			select {
 			case x, ok := <-out:
 				if !ok {
@@ -64,7 +65,8 @@ func driveDrop(sched string) (answer string, viol [][3]string) {
 					viol = append(viol, [3]string{"C16/DropExcess/handed-over-not-the-latest-message", fmt.Sprint(latest), fmt.Sprint(x)})
 				}
 				return fmt.Sprint(x), true
-			case <-time.After(lossyWait):
+			case <-w.C:
+				w.ranOut()
 				viol = append(viol, [3]string{"C16/DropExcess/latest-message-lost", fmt.Sprint(latest), "nothing offered"})
 				return "timeout", false
 			}
@@ -83,10 +85,12 @@ func driveDrop(sched string) (answer string, viol [][3]string) {
 	for _, a := range sched {
 		if a == 'r' {
 			k++
+			w := bounded(lossyWait)
 			select {
 			case in <- k:
 				latest, pending = k, true
-			case <-time.After(lossyWait):
+			case <-w.C:
+				w.ranOut()
 				viol = append(viol, [3]string{"C16/DropExcess/blocks-the-bus", "receives", "does not receive"})
 				return "error:blocked", viol
 			}
@@ -148,8 +152,8 @@ func runFreeDrop(f lib.Flags, res *lib.Result, drv *lib.Driver, ms *monitors) {
 		tie.Fail(err)
 		return
 	}
-	bad := 0
 	for i, s := range scheds {
+		mark := patience.mark()
 		code, viol := driveDrop(s)
 		in := dropIn{Op: "drop", Sched: s}
 		nontrivial := strings.Contains(s, "rt")
@@ -159,10 +163,8 @@ func runFreeDrop(f lib.Flags, res *lib.Result, drv *lib.Driver, ms *monitors) {
 		for _, v := range viol {
 			ms.free.Violate(v[0], "DropExcess must hand over the latest message it was given, once, and nothing else", in, v[1], v[2])
 		}
-		if len(viol) > 0 || strings.HasPrefix(code, "error:") {
-			if bad++; bad > 3 {
-				return // every failure may cost a bounded wait: a broken stage must not stall the run
-			}
+		if patience.giveUp(mark) {
+			return // a broken stage must not stall the run (patience.go)
 		}
 	}
 }
@@ -306,13 +308,15 @@ func driveMerger(acts []mact) mergerOut {
 		}
 	}
 	recvB := func() (*resource.CollectionChange, bool) {
+		w := bounded(lossyWait)
 		select {
 		case x, ok := <-out:
 			if !ok {
 				return nil, false
 			}
 			return x.(*resource.CollectionChange), true
-		case <-time.After(lossyWait):
+		case <-w.C:
+			w.ranOut()
 			return nil, false
 		}
 	}
@@ -352,9 +356,11 @@ func driveMerger(acts []mact) mergerOut {
 			return o
 		}
 		o.evs = append(o.evs, e)
+		w := bounded(lossyWait)
 		select {
 		case in <- &resource.CollectionChange{Id: a.Id, ChangeTime: t0, ChangeType: ct, OldValue: e.old, NewValue: e.new}:
-		case <-time.After(lossyWait):
+		case <-w.C:
+			w.ranOut()
 			o.err = "the merger does not receive at " + where
 			o.viol = append(o.viol, [3]string{"C16/mergeCollectionExcess/free/blocks-the-bus", "receives", where + "does not receive"})
 			return o
@@ -374,9 +380,11 @@ func driveMerger(acts []mact) mergerOut {
 	}
 	// what is left: a marker goes to the back of the queue, everything in front of it is the queue
 	marker := &resource.CollectionChange{Id: "~end", ChangeTime: t0, ChangeType: types.ChangeType_ADD, NewValue: dbl(0)}
+	w := bounded(lossyWait)
 	select {
 	case in <- marker:
-	case <-time.After(lossyWait):
+	case <-w.C:
+		w.ranOut()
 		o.err = "the merger does not receive the end marker"
 		return o
 	}
@@ -463,15 +471,13 @@ func mergerShapes(maxLen int, ids []string, vals []float64) [][]mact {
 func recordMerger(tie *lib.Tie, drv *lib.Driver, ms *monitors, cases [][]mact) bool {
 	outs := make([]mergerOut, len(cases))
 	lines := make([]string, len(cases))
-	bad := 0
 	for i, acts := range cases {
+		mark := patience.mark()
 		outs[i] = driveMerger(acts)
 		lines[i] = mergerLine(outs[i], acts)
-		if outs[i].err != "" {
-			if bad++; bad > 3 {
-				cases, outs, lines = cases[:i+1], outs[:i+1], lines[:i+1]
-				break
-			}
+		if patience.giveUp(mark) {
+			cases, outs, lines = cases[:i+1], outs[:i+1], lines[:i+1]
+			break
 		}
 	}
 	ans, err := drv.Batch(lines)
@@ -574,9 +580,11 @@ func (c pcase) runFreeValue() vfreeOut {
 			out.err = "panic:" + msg
 		}
 	}()
+	w := bounded(6 * lossyWait)
 	select {
 	case <-done:
-	case <-time.After(6 * lossyWait):
+	case <-w.C:
+		w.ranOut()
 		return vfreeOut{err: "timeout"}
 	}
 	return out
@@ -649,6 +657,7 @@ func (c pcase) runFreeValueInner(out *vfreeOut) {
 		return true
 	}
 	recv := func() bool {
+		w := bounded(lossyWait)
 		select {
 		case x, ok := <-ch:
 			if !ok {
@@ -672,7 +681,8 @@ func (c pcase) runFreeValueInner(out *vfreeOut) {
 			held = x.Value
 			handFull = false
 			return true
-		case <-time.After(lossyWait):
+		case <-w.C:
+			w.ranOut()
 			out.err = "the subscriber was not handed the change the loop decided to deliver"
 			out.viol = append(out.viol, [3]string{"C16/Value.Pull/free/decided-change-not-delivered", fmt.Sprintf("write %d", handWrite), "nothing"})
 			return false
@@ -854,9 +864,9 @@ func runFreeValue(f lib.Flags, res *lib.Result, drv *lib.Driver, ms *monitors) {
 	tie := res.Tie("value-pull-free", "K1",
 		"Value.Pull WITHOUT backpressure end to end, free-running subscriber made deterministic: random value-pull cases (any ancestor type, 1-18 writes each a small mutation of the previous or a return to an earlier value, optional initial value, read mask, WithUpdatesOnly; equivalence none | Equal() | Equal(tolerances around the written steps), handed over wrapped so that every call is seen) with a random interleaving of writes and subscriber receives (40% receive before each write), then the subscriber catches up. The model (valuePull over dropRun of the schedule as the stage saw it) must predict the number of takes, every decision and WHICH writes are delivered. Non-trivial: an equivalence configured")
 	g := &gen{r: lib.NewRand(f.Seed + 86028121)}
-	bad := 0
 	for i, n := 0, f.N(300, 4000); i < n; i++ {
 		c := g.pcaseFreeValue()
+		mark := patience.mark()
 		out := c.runFreeValue()
 		c.monitorFreeValue(ms, out)
 		ans, err := drv.Ask(c.vfreeLine(out))
@@ -868,10 +878,8 @@ func runFreeValue(f lib.Flags, res *lib.Result, drv *lib.Driver, ms *monitors) {
 		tie.Record(c.vfreeLine(out), c.Spec != nil, c.json(), model, code)
 		dropped := len(out.events) - len(out.calls)
 		tie.Count(fmt.Sprintf("dropped=%d:suppressed=%d", min(dropped, 6), min(len(out.calls)-len(out.got), 6)))
-		if out.err != "" {
-			if bad++; bad > 2 {
-				return
-			}
+		if patience.giveUp(mark) {
+			return
 		}
 	}
 }
